@@ -83,6 +83,8 @@ type BooleanLogicExprNode struct {
 	left  Node
 	right Node
 	op    boolBinaryOp
+	// grouped is set if the expression was written in parentheses
+	grouped bool
 }
 
 func (node *BooleanLogicExprNode) Accept(visitor Visitor) {
